@@ -170,6 +170,84 @@ pub fn step_txring(t: &mut TxSt, args: &[&str]) -> String {
             }
             _ => "bad-op".into(),
         },
+        // C19 "growth never loses bytes" with a REAL second thread: a writer thread keeps calling poll_write while
+        // this thread grows the buffer (8 -> 65536, doubling) and drains it; every byte the writer was told was accepted
+        // must come out, in order. Stand-alone (own UserTx); prints only ok / lost so that the model can answer.
+        ["race", rounds] => match rounds.parse::<usize>() {
+            Ok(rounds) if rounds > 0 && rounds <= 2000 => {
+                let mut verdict = "ok".to_string();
+                'outer: for _ in 0..rounds {
+                    let user_tx = UserTx::new(NonZeroUsize::new(8).unwrap());
+                    let mut w = UtpStreamWriteHalf::new(user_tx.clone());
+                    let total: usize = 40_000;
+                    let h = std::thread::spawn(move || {
+                        let waker = Waker::noop();
+                        let mut cx = Context::from_waker(waker);
+                        let mut pos = 0usize;
+                        let mut spins = 0u64;
+                        while pos < total && spins < 50_000_000 {
+                            let n = (total - pos).min(1 + pos % 13);
+                            let b: Vec<u8> = (0..n).map(|j| (((pos + j) * 7 + 3) % 251) as u8).collect();
+                            match Pin::new(&mut w).poll_write(&mut cx, &b) {
+                                Poll::Ready(Ok(k)) => pos += k,
+                                _ => {
+                                    spins += 1;
+                                    std::thread::yield_now();
+                                }
+                            }
+                        }
+                        (pos, w)
+                    });
+                    let mut got = 0usize;
+                    let mut idle = 0u64;
+                    while !h.is_finished() || idle < 3 {
+                        // take a few bytes out (so that the writer has room and is pushing), then grow by ONE byte
+                        // at once: thousands of grow() calls per round, each overlapping a writer that has room
+                        let mut popped = 0;
+                        let cap = {
+                            let mut c = user_tx.consumer.lock();
+                            while popped < 3 || (h.is_finished() && popped < 1 << 20) {
+                                match c.try_pop() {
+                                    Some(b) => {
+                                        if b != ((got * 7 + 3) % 251) as u8 {
+                                            verdict = format!("lost:byte_{got}_is_not_the_one_accepted_there");
+                                        }
+                                        got += 1;
+                                        popped += 1;
+                                    }
+                                    None => break,
+                                }
+                            }
+                            c.capacity().get()
+                        };
+                        if cap < 4096 {
+                            let _ = user_tx.grow(NonZeroUsize::new(cap + 1).unwrap());
+                        }
+                        if h.is_finished() && popped == 0 {
+                            idle += 1;
+                        }
+                        if verdict != "ok" {
+                            break;
+                        }
+                    }
+                    let (accepted, _w) = h.join().unwrap_or((usize::MAX, UtpStreamWriteHalf::new(user_tx.clone())));
+                    if verdict == "ok" {
+                        let mut c = user_tx.consumer.lock();
+                        while c.try_pop().is_some() {
+                            got += 1;
+                        }
+                        if got != accepted {
+                            verdict = format!("lost:{}_bytes_accepted_{}_came_out", accepted, got);
+                        }
+                    }
+                    if verdict != "ok" {
+                        break 'outer;
+                    }
+                }
+                if verdict == "ok" { "ok".into() } else { verdict }
+            }
+            _ => "bad-op".into(),
+        },
         ["grow", m] => match m.parse::<usize>() {
             Ok(m) if m > 0 && m <= 1 << 24 => {
                 let r = t.user_tx.grow(NonZeroUsize::new(m).unwrap());
